@@ -71,7 +71,7 @@ fn class_name(c: u64) -> String {
 
 pub fn run(tier: Tier) -> i32 {
     let run = Run::new("C07", tier);
-    let n: i128 = if tier.thorough() { 20_000_000 } else { 200_000 };
+    let n: i128 = if tier.thorough() { 20_000_000 } else { 1_500_000 };
     let small: Vec<i128> = (-n..=n).collect();
     run.par_for(&small, || {}, |&a, l| { for f in 0..=18u8 { case(a, f, l); } });
     run.stage("complete small scope", json!({"|a|<=": n, "scales": 19}));
